@@ -12,6 +12,9 @@ ItemsDistinct == [f \in Files |-> << It(f, "struct") >>]
 ItemsMixed == [f \in Files |-> << It(f, "struct"), It(f, "enum"), It(f, "alias"), It(f, "const") >>]
 \* the same without consts
 ItemsNoConst == [f \in Files |-> << It(f, "struct"), It(f, "enum"), It(f, "alias") >>]
+\* outputs: everything into one file (-o), or two crates (-d): f1, f2 -> o1, the rest -> o2
+OutSingle == [f \in Files |-> "o1"]
+OutTwo == [f \in Files |-> IF f \in {"f1", "f2"} THEN "o1" ELSE "o2"]
 \* two files define a struct of the same name (tie in the sort key)
 ItemsTie == [f \in Files |-> << [name |-> 7, kind |-> "struct", src |-> f] >>]
 =============================================================================
